@@ -6,6 +6,15 @@ def _delay_cfgs(req):
     return [tuple(int(x) for x in m.groups()) for m in re.finditer(r"(?:D:|delay )(\d+):(\d+):(\d+):(\d+)", req)]
 
 
+def _open_patterns():
+    import json, os
+    try:
+        kf = json.load(open(os.path.join(os.path.dirname(os.path.abspath(__file__)), "..", "known-findings.json")))
+        return {f.get("pattern") for f in kf.get("findings", []) if f.get("property") == "C19" and f.get("status") == "open"}
+    except (OSError, ValueError):
+        return set()
+
+
 def classify(req, obs, rule):
     # finding D17 (open, pattern "initial>max"): with InitialInterval > MaxInterval the first failure on a message
     # without usable delay metadata writes InitialInterval.  The monitor names exactly that case
@@ -13,14 +22,21 @@ def classify(req, obs, rule):
     # case shows no other violation; here we additionally require the configuration in the request to have init > max.
     if rule == "violated:delay_first_uncapped" and any(c[0] > c[1] for c in _delay_cfgs(req)):
         return "initial>max"
+    # candidate finding "breaker+panicnil": in a program running with GODEBUG=panicnil=1 the CircuitBreaker middleware
+    # reports a handler that called panic(nil) as success (gobreaker v1.0.0 re-panics only when recover() != nil).
+    # These cases are generated only while the pattern is listed as open (harness flag -breaker-panicnil below).
+    f = req.split()
+    if f[0] == "stackn" and "B" in f[1].split(",") and "pn/n" in f[3].split(";") and \
+            rule in ("violated:transparent_result", "violated:recoverer_panic_becomes_error", "violated:retry_attempt_count", "diff"):
+        return "breaker+panicnil"
     return None
 
 
 def nontrivial(req, obs):
     f = req.split()
-    if f[0] == "stack":
+    if f[0] in ("stack", "stackn"):
         # at least one middleware and something other than "handler returned nothing, nothing observable happened"
-        return f[1] != "-" and not (obs.startswith("ret/-/none ") and "calls=000/n " in obs and f[2] == "live/n/n")
+        return f[1] != "-" and not (obs.startswith("ret/-/none ") and "calls=000/n " in obs and f[2] == "live/n/n/n")
     if f[0] == "delay":
         return f[3].count("F") >= 2      # the recurrence is exercised
     return f[0] == "throttle" and int(f[1]) > 2
@@ -38,6 +54,7 @@ PROP = {
         "ignore_errors_only_listed", "ignore_errors_cause",
         "instant_ack_before_call", "throttle_transparent", "breaker_transparent",
         "throttle_rate", "throttle_window_count", "throttle_model_admissible", "throttle_lifetime_rate", "throttle_valid_is_lax",
+        "throttle_takes_tick_whatever_the_context", "Legacy.breaker_swallows_nil_panic",
         "delay_transparent", "delay_recurrence", "delay_seq_failures",
         "delay_closed_form_bound_partial", "delay_capped_from_second", "delay_first_uncapped_witness",
         "delay_gap_bound", "Old.delay_fraction_truncated",
@@ -50,6 +67,7 @@ PROP = {
         "extracted_delayMw_eq_model", "extracted_applyDelay_eq_model",
     ]],
     "harness": "c19",
+    "harness_args": (["-breaker-panicnil"] if "breaker+panicnil" in _open_patterns() else []),
     "race": False,         # a sequential property: the middlewares hold no mutable state (Throttle's ticker is only received from); a
                            # race build would add the race runtime's 1 s exit sleep to every corpus replay for nothing
     "driver": "drv_c19",
@@ -67,7 +85,12 @@ PROP = {
             "delay: DelayOnError called repeatedly on one message for every failure/success sequence up to length 6 (quick) / 8 "
             "(thorough) x 7 configurations (multipliers 1, 1.5, 2, 2.5, 3) x prior metadata, plus seeded random configurations "
             "(multipliers k/1, k/2, k/4; durations < 2^44 ns so that float64 arithmetic is exact), metadata read after each call. "
-            "throttle: n calls by 1..16 concurrent callers through a fresh Throttle against the real clock, only the lower bound "
+            "stackn: the same chains (without CircuitBreaker) executed with GODEBUG=panicnil=1 switched on in the harness process "
+            "(recover() returns nil for panic(nil), as in programs whose go.mod says go < 1.21): every middleware x panic(nil) / other "
+            "panics / errors / successes, every pair containing a Recoverer (and a quarter of the others) x 7 scripts around "
+            "panic(nil), seeded triples; expectation unchanged (a nil panic is a panic: an error under Recoverer, retried by Retry). "
+            "throttle: n calls by 1..16 concurrent callers through a fresh Throttle against the real clock, with messages whose context is live, "
+            "already cancelled, or under a Timeout(period/8) outside the Throttle that expires during the wait; only the lower bound "
             "(n-2)·period ≤ elapsed (measured from before the ticker's creation) is judged. Non-trivial = a stack case with a middleware and an observable effect, a delay "
             "sequence with >= 2 failures, a throttle case with > 2 starts; distinct = distinct (request, observation) pairs.",
     "trusted_base": [
@@ -81,7 +104,12 @@ PROP = {
         "form), RFC 3339 formatting of delayed_until (only presence is compared)",
         "github.com/pkg/errors Cause/Wrap/WithStack and fmt.Errorf %w as modelled by Err.cause / Err.text; the text of a recovered "
         "panic error contains a stack trace and is assumed never to equal a listed error text",
-        "sony/gobreaker v1.0.0 in closed state with ReadyToTrip = never (Execute calls the function once, re-panics the same value)",
+        "sony/gobreaker v1.0.0 in closed state with ReadyToTrip = never (Execute calls the function once, re-panics the same value); "
+        "under GODEBUG=panicnil=1 gobreaker itself swallows panic(nil) (re-panics only when recover() != nil) – candidate finding "
+        "'breaker+panicnil' in checks/c19.findings.json, witness Legacy.breaker_swallows_nil_panic; the stackn group leaves the "
+        "CircuitBreaker out unless that pattern is listed as open in known-findings.json",
+        "GODEBUG=panicnil=1 is switched on at run time through os.Setenv (the Go runtime re-reads GODEBUG); the harness verifies with a "
+        "probe that recover() really returns nil for panic(nil) before it runs the stackn group",
         "Retry is modelled minimally (attempt rule, single read of msg.Context() after the first attempt, outputs dropped when "
         "retries are exhausted); back-off waits, MaxElapsedTime and the hook are C12's subject",
         "time.Ticker as a one-slot channel: throttle_rate / throttle_window_count assume punctual delivery at multiples of the "
